@@ -5,4 +5,4 @@ SPEC=/verif/spec
 exec java -Xss1g -Xmx$H -XX:+UseParallelGC -Dtlc2.tool.queue.IStateQueue=StateDeque \
   -Dtlc2.overrides.TLCOverrides=verif.BigOverrides:tlc2.overrides.TLCOverrides \
   -cp $SPEC/classes:/opt/veriftools/tla/tla2tools.jar:/opt/veriftools/tla/CommunityModules-deps.jar \
-  tlc2.TLC -workers $W -metadir $M -cleanup -noGenerateSpecTE "$@"
+  tlc2.TLC -workers $W -metadir $M -cleanup -noGenerateSpecTE -checkpoint 0 "$@"
